@@ -946,10 +946,12 @@ class Hydrodynamics:
                     events=shock,
                     rtol=self.rtol,
                     atol=0,
+                    dense_output=True,
                 )  # solve differential equation all the way from v = v+ to v = 0
-                vPlasma = solShock.t
-                xi = solShock.y[0]
-                T = solShock.y[1]
+                # Sample the solution densely up to the shock front: Simpson's rule on
+                # the few points chosen by the adaptive integrator is off by percents.
+                vPlasma = np.linspace(vpcent, solShock.t[-1], 1001)
+                xi, T = solShock.sol(vPlasma)
                 enthalpy = np.array([self.thermodynamics.wHighT(t) for t in T])
 
                 # Integrate the solution to get kappa
